@@ -109,8 +109,7 @@ Inductive rkind := RCb | RTo | RFut | RFn.
 
 Inductive ev :=
 | ESc (i : nat)                 (* add_callback called; instance i created *)
-| ESt (i : nat) (d w : Z)       (* a timeout call; instance i, requested absolute deadline d (ticks), and the
-                                   effective deadline w = max(d, clock at the call) computed by the harness *)
+| ESt (i : nat) (d : Z)         (* a timeout call; instance i, requested absolute deadline d (ticks) *)
 | ERm (i : nat)                 (* remove_timeout on the handle of timeout instance i *)
 | EAf (i f : nat)               (* add_future(f, instance i) *)
 | ERs (f : nat) (how : nat) (v : Z)   (* future f resolved by an op: 0 result v, 1 exception v, 2 cancelled *)
@@ -129,8 +128,8 @@ Inductive ev :=
 Inductive fcb := FcUser (i : nat) (b : body) | FcDiscard | FcStop.
 Inductive fstate := FPending (cbs : list fcb) | FOk (v : option Z) | FExc (x : exn) | FCancelled.
 
-(* a timer handle remembers the requested deadline d and asyncio's TimerHandle._when w *)
-Inductive hkind := KCb | KTo (d w : Z) | KFut (f : nat).   (* KFut f: partial(callback, future f) *)
+(* a timer handle carries asyncio's TimerHandle._when, which is the requested deadline d (no clamping) *)
+Inductive hkind := KCb | KTo (d : Z) | KFut (f : nat).   (* KFut f: partial(callback, future f) *)
 Inductive handle :=
 | HUser (i : nat) (k : hkind) (b : body)   (* Handle(_run_callback, partial(fn)) for a user callback *)
 | HDiscard (key : nat)                     (* _run_callback(partial(_discard_future_result, f)) *)
@@ -140,7 +139,7 @@ Inductive handle :=
 
 Definition hwhen (h : handle) : Z :=
   match h with
-  | HUser _ (KTo _ w) _ => w
+  | HUser _ (KTo d) _ => d
   | HTimeoutCb w => w
   | _ => 0
   end.
@@ -220,13 +219,13 @@ Definition resolve (key : nat) (r : fstate) (s : st) : option st :=
   | _ => None
   end.
 
-(* BaseAsyncIOLoop.call_at(deadline): call_later(max(0, deadline - time())) -> loop.call_at(time() + delay) *)
-Definition when_for (s : st) (deadline : Z) : Z := Z.max (now s) deadline.
+(* BaseAsyncIOLoop.call_at(deadline): call_later(deadline - time()) -> loop.call_at(time() + delay), i.e.
+   TimerHandle._when = deadline, also when the deadline is already in the past (no max(0, ...) clamp) *)
 Definition sched_timer (h : handle) (s : st) : st := set_heap (hpush (heap s) h) s.
 
 Definition is_cancelled (s : st) (h : handle) : bool :=
   match h with
-  | HUser i (KTo _ _) _ => existsb (Nat.eqb i) (cancelled s)
+  | HUser i (KTo _) _ => existsb (Nat.eqb i) (cancelled s)
   | _ => false
   end.
 
@@ -239,7 +238,7 @@ Definition exec_op (o : op) (s : st) : st * bool :=
   | OTo fm t b =>
       let i := next s in
       let dl := match fm with FAbs | FCallAt => t | FLater | FDelta => now s + t end in
-      (add_handle i (sched_timer (HUser i (KTo dl (when_for s dl)) b) (emit (ESt i dl (when_for s dl)) (bump s))), false)
+      (add_handle i (sched_timer (HUser i (KTo dl) b) (emit (ESt i dl) (bump s))), false)
   | ORm k =>
       match nth_error (handles s) k with
       | Some i => (cancel_inst i (emit (ERm i) s), false)
@@ -289,7 +288,7 @@ Definition run_fn (i : nat) (k : rkind) (b : body) (s : st) : st * ended :=
   (emit (EEnd i e) s1, e).
 
 Definition rkind_of (k : hkind) : rkind :=
-  match k with KCb => RCb | KTo _ _ => RTo | KFut _ => RFut end.
+  match k with KCb => RCb | KTo _ => RTo | KFut _ => RFut end.
 
 (* Handle._run() for each kind of handle *)
 Definition run_handle (h : handle) (s : st) : st :=
@@ -413,7 +412,7 @@ Definition init_sync (b : body) (timeout : option Z) : st :=
   let s := push_ready [HRunSync 0 b] (bump st0) in
   match timeout with
   | None => s
-  | Some t => sched_timer (HTimeoutCb (when_for s (now s + t))) s
+  | Some t => sched_timer (HTimeoutCb (now s + t)) s
   end.
 
 Inductive sync_result := RRet (v : option Z) | RExc (x : exn) | RTimeout | RStopped | RIdle | RFuel | RAssert.
